@@ -1581,16 +1581,21 @@ impl DhtNetworkManager {
             return;
         }
 
+        // A peer's position in the key space is a function of its id. The `distance`
+        // bytes of a node received in a reply are a claim by the replier and must not
+        // decide where the node sorts; they are only a fallback for an empty id.
+        if let Some(key) = Self::parse_peer_id_to_key(&node.peer_id) {
+            node.cached_dht_key = Some(key);
+            return;
+        }
+
         if let Some(distance) = node.distance.as_ref()
             && distance.len() == 32
         {
             let mut key_bytes = [0u8; 32];
             key_bytes.copy_from_slice(&distance[..32]);
             node.cached_dht_key = Some(DhtKey::from_bytes(key_bytes));
-            return;
         }
-
-        node.cached_dht_key = Self::parse_peer_id_to_key(&node.peer_id);
     }
 
     /// Parse a peer ID string to a DhtKey, returning None for invalid IDs.
